@@ -3,4 +3,4 @@
 using namespace simd;
 using D = split_dbm_domain<z_number, varname_t, G_int64>;
 SIM_REGISTER_DOMAIN(zones_sdbm, D, "zones_sdbm",
-                    CAP_EXACT_EXPORT | CAP_INT64 | CAP_NTOW | CAP_CORE)
+                    CAP_EXACT_EXPORT | CAP_INT64 | CAP_NTOW | CAP_CORE | CAP_BACKWARD)
